@@ -30,6 +30,16 @@ pub fn guarded<T>(f: impl FnOnce() -> T) -> Result<T, String> {
     }
 }
 
+/// the TLC Json module cannot read null: nulls are written as the string "null"
+pub fn denull(v: &mut Value) {
+    match v {
+        Value::Null => *v = Value::String("null".to_string()),
+        Value::Array(a) => a.iter_mut().for_each(denull),
+        Value::Object(o) => o.values_mut().for_each(denull),
+        _ => {}
+    }
+}
+
 pub fn read_cases(path: &str) -> Vec<Value> {
     let f = File::open(path).unwrap_or_else(|e| {
         eprintln!("harness: cannot open {}: {}", path, e);
@@ -86,6 +96,7 @@ pub fn run_cases(inp: &str, outp: &str, f: impl Fn(&Value) -> Vec<Value> + Sync)
                             }
                         };
                         for e in evs.iter_mut() {
+                            denull(e);
                             if let Some(o) = e.as_object_mut() {
                                 o.insert("cid".to_string(), json!(base + ci));
                             }
